@@ -309,3 +309,28 @@ pub fn mix64(x: u64) -> u64 {
     z = (z ^ (z >> 27)).wrapping_mul(0x94D0_49BB_1331_11EB);
     z ^ (z >> 31)
 }
+
+/// Long-key family: keys of hundreds to tens of thousands of bytes, alone,
+/// as prefix chains and with shared prefixes/suffixes.
+pub fn long_key_family() -> Vec<(String, Vec<Kv>)> {
+    let k = |n: usize, seed: u8| -> Key { (0..n).map(|i| b'a' + ((i as u32 * 31 + seed as u32 + (i / 97) as u32) % 26) as u8).collect() };
+    let mut v = vec![];
+    for n in [300usize, 1000, 70_000] {
+        let base = k(n, 1);
+        let mut ext = base.clone();
+        ext.push(b'x');
+        let mut sib = base.clone();
+        *sib.last_mut().unwrap() = b'~';
+        let mut other = k(n, 2);
+        other[0] = b'z';
+        // shares a long suffix with `base`
+        let mut suf = base.clone();
+        suf[0] = b'y';
+        let mut keys = vec![base[..n / 2].to_vec(), base.clone(), ext, sib, suf, other];
+        keys.sort();
+        keys.dedup();
+        v.push((format!("long-{}-set", n), Pat::Zero.apply(&keys)));
+        v.push((format!("long-{}-map", n), Pat::MaxMinus.apply(&keys)));
+    }
+    v
+}
